@@ -46,6 +46,35 @@ type plan struct {
 	Yield      int     `json:"yield_level"`
 	Proto848   bool    `json:"kip848"`
 	CancelP    float64 `json:"abandon_async_commit_p"` // async commits whose context is cancelled a few ms after issue
+	// Stride: commit #i carries offset base + (i*Stride mod 127). 1 = increasing offsets; any
+	// other value makes later commits carry lower offsets than earlier ones (rewinds, which the
+	// commit API documents as allowed) while every commit keeps a unique value.
+	Stride int `json:"offset_stride"`
+}
+
+const strideMod = 127 // prime, above the largest number of commits in a plan
+
+// offOf is the offset commit #i carries, idxOf its inverse.
+func (p plan) offOf(i int) int64 {
+	st := p.Stride
+	if st <= 0 {
+		st = 1
+	}
+	return int64(base + (i*st)%strideMod)
+}
+
+func (p plan) idxOf(off int64) int {
+	st := p.Stride
+	if st <= 0 {
+		st = 1
+	}
+	v := int(off - base)
+	for i := 0; i < strideMod; i++ {
+		if (i*st)%strideMod == v {
+			return i
+		}
+	}
+	return -1
 }
 
 type arrival struct {
@@ -164,6 +193,20 @@ func run(p plan, watchdog time.Duration) (arr []arrival, iss []*issued, final ma
 			kgo.Balancers(kgo.CooperativeStickyBalancer()), kgo.FetchMaxWait(50*time.Millisecond), kgo.HeartbeatInterval(200*time.Millisecond),
 			kgo.RetryBackoffFn(func(n int) time.Duration { return time.Duration(n+1) * 2 * time.Millisecond }))
 	}
+	// a few records per partition: only a partition the member has polled from has an entry in
+	// the client's commit tracking, and without one CommittedOffsets has nothing to report
+	if pc, err := env.NewClient(kgo.RecordPartitioner(kgo.ManualPartitioner())); err == nil {
+		var rs []*kgo.Record
+		for part := 0; part < p.Partitions; part++ {
+			for k := 0; k < 3; k++ {
+				rs = append(rs, &kgo.Record{Topic: topic, Partition: int32(part), Value: []byte("x")})
+			}
+		}
+		ctx, cancel := context.WithTimeout(context.Background(), watchdog)
+		pc.ProduceSync(ctx, rs...)
+		cancel()
+		pc.Close()
+	}
 	cl, err := mk("main")
 	if err != nil {
 		return nil, nil, nil, nil, nil, []string{err.Error()}
@@ -175,10 +218,8 @@ func run(p plan, watchdog time.Duration) (arr []arrival, iss []*issued, final ma
 		ctx, cancel := context.WithTimeout(context.Background(), 50*time.Millisecond)
 		cl.PollFetches(ctx)
 		cancel()
-		if _, gen := cl.GroupMetadata(); gen >= 0 && len(cl.CommittedOffsets()) >= 0 {
-			if m, _ := cl.GroupMetadata(); m != "" {
-				break
-			}
+		if m, gen := cl.GroupMetadata(); gen >= 0 && m != "" && len(cl.UncommittedOffsets()[topic]) == p.Partitions {
+			break // joined, and polled from every partition
 		}
 	}
 	// second member churn
@@ -238,7 +279,7 @@ func run(p plan, watchdog time.Duration) (arr []arrival, iss []*issued, final ma
 		}
 		m := map[string]map[int32]kgo.EpochOffset{topic: {}}
 		for _, part := range is.Parts {
-			m[topic][part] = kgo.EpochOffset{Epoch: -1, Offset: int64(base + i)}
+			m[topic][part] = kgo.EpochOffset{Epoch: -1, Offset: p.offOf(i)}
 		}
 		onDone := func(_ *kgo.Client, req *kmsg.OffsetCommitRequest, resp *kmsg.OffsetCommitResponse, err error) {
 			mu.Lock()
@@ -267,7 +308,7 @@ func run(p plan, watchdog time.Duration) (arr []arrival, iss []*issued, final ma
 			is.API = "CommitRecords"
 			var rs []*kgo.Record
 			for _, part := range is.Parts {
-				rs = append(rs, &kgo.Record{Topic: topic, Partition: part, Offset: int64(base+i) - 1, LeaderEpoch: -1})
+				rs = append(rs, &kgo.Record{Topic: topic, Partition: part, Offset: p.offOf(i) - 1, LeaderEpoch: -1})
 			}
 			err := cl.CommitRecords(ctx, rs...)
 			cancel()
@@ -347,7 +388,7 @@ func judge(r *vh.Run, p plan, mode string, arr []arrival, iss []*issued, final, 
 	wit := func(d string) map[string]any {
 		var a []string
 		for _, x := range arr {
-			a = append(a, fmt.Sprintf("%d:p%d=%d(%s)", x.Clock, x.Part, x.Offset-base, x.Action))
+			a = append(a, fmt.Sprintf("%d:p%d=#%d@%d(%s)", x.Clock, x.Part, p.idxOf(x.Offset), x.Offset, x.Action))
 		}
 		if len(a) > 300 {
 			a = a[:300]
@@ -359,12 +400,12 @@ func judge(r *vh.Run, p plan, mode string, arr []arrival, iss []*issued, final, 
 		return
 	}
 	// arrival order per partition
-	maxSeen := map[int32]int64{}
+	maxSeen := map[int32]int{} // highest commit index seen arriving, per partition
 	reordered, retries, delayedWhileLater := 0, 0, 0
 	abandoned := map[int64]bool{}
 	for _, is := range iss {
 		if is.Abandoned {
-			abandoned[int64(base+is.Idx)] = true
+			abandoned[p.offOf(is.Idx)] = true
 		}
 	}
 	for _, a := range arr {
@@ -374,18 +415,18 @@ func judge(r *vh.Run, p plan, mode string, arr []arrival, iss []*issued, final, 
 			// application gave up this commit's ordering itself, so its arrival is not judged.
 			continue
 		}
-		if a.Offset < maxSeen[a.Part] {
+		ai := p.idxOf(a.Offset)
+		if seen, any := maxSeen[a.Part]; any && ai < seen {
 			reordered++
-			r.Violation("commit-arrived-after-a-later-commit", wit(fmt.Sprintf("partition %d: commit #%d arrived at the coordinator (clock %d) after commit #%d had already arrived", a.Part, a.Offset-base, a.Clock, maxSeen[a.Part]-base)))
+			r.Violation("commit-arrived-after-a-later-commit", wit(fmt.Sprintf("partition %d: commit #%d arrived at the coordinator (clock %d) after commit #%d had already arrived", a.Part, ai, a.Clock, seen)))
 			break
-		}
-		if a.Offset == maxSeen[a.Part] {
+		} else if any && ai == seen {
 			retries++
 		}
 		if a.Action != "pass" {
 			delayedWhileLater++
 		}
-		maxSeen[a.Part] = a.Offset
+		maxSeen[a.Part] = ai
 	}
 	// final value = last successful commit per partition
 	last := map[int32]int64{}
@@ -395,7 +436,7 @@ func judge(r *vh.Run, p plan, mode string, arr []arrival, iss []*issued, final, 
 		}
 		for _, part := range is.Parts {
 			if is.PartOK[part] {
-				last[part] = int64(base + is.Idx)
+				last[part] = p.offOf(is.Idx)
 			}
 		}
 	}
@@ -425,7 +466,7 @@ func judge(r *vh.Run, p plan, mode string, arr []arrival, iss []*issued, final, 
 	passedLater := map[int32]map[int64]bool{}
 	for _, a := range arr {
 		if a.Action == "pass" || a.Action == "delay" {
-			if idx := int(a.Offset - base); idx > lastIdx[a.Part] || unconfirmed[idx] {
+			if idx := p.idxOf(a.Offset); idx > lastIdx[a.Part] || unconfirmed[idx] {
 				if passedLater[a.Part] == nil {
 					passedLater[a.Part] = map[int64]bool{}
 				}
@@ -436,14 +477,17 @@ func judge(r *vh.Run, p plan, mode string, arr []arrival, iss []*issued, final, 
 	for part, want := range last {
 		got, ok := final[part]
 		if !ok || (got != want && !passedLater[part][got]) {
-			r.Violation("final-committed-offset-differs-from-last-successful-commit", wit(fmt.Sprintf("partition %d: coordinator has %d (commit #%d), last successful commit was #%d and no later unconfirmed commit with that value was let through", part, got, got-base, want-base)))
+			r.Violation("final-committed-offset-differs-from-last-successful-commit", wit(fmt.Sprintf("partition %d: coordinator has %d (commit #%d), last successful commit was #%d and no later unconfirmed commit with that value was let through", part, got, p.idxOf(got), p.idxOf(want))))
 		}
 		// CommittedOffsets is only tracked for partitions the member owns; with a second member
 		// joining and leaving, ownership (and the view) comes and goes, so the client view is
 		// judged only in scenarios without rebalances.
 		if p.Rebalances == 0 {
+			if cv, ok := clientView[part]; ok && cv >= base {
+				r.Count("client_view_compared", 1)
+			}
 			if cv, ok := clientView[part]; ok && cv != want && cv >= base {
-				r.Violation("CommittedOffsets-differs-from-last-successful-commit", wit(fmt.Sprintf("partition %d: CommittedOffsets()=%d (commit #%d), last successful commit was #%d", part, cv, cv-base, want-base)))
+				r.Violation("CommittedOffsets-differs-from-last-successful-commit", wit(fmt.Sprintf("partition %d: CommittedOffsets()=%d (commit #%d), last successful commit was #%d", part, cv, p.idxOf(cv), p.idxOf(want))))
 			}
 		}
 	}
@@ -475,6 +519,7 @@ func gen(rng *rand.Rand, seed uint64, vt bool) plan {
 	if vt {
 		p.Yield = 0
 	}
+	p.Stride = []int{1, 1, 3, 50, 126}[rng.IntN(5)] // 126 = strictly decreasing offsets
 	return p
 }
 
@@ -507,7 +552,7 @@ func TestCheck(t *testing.T) {
 		r.Eval(1)
 	}
 	r.Finish("exploration",
-		"one evaluation = one seeded scenario of 30-100 commits issued by one goroutine through CommitOffsets / CommitOffsetsSync / CommitRecords with unique increasing offsets, while the coordinator delays selected commits, answers some with retriable coordinator errors or partition errors, and a second member joins/leaves; non-trivial = at least one commit was delayed/failed by injection while later commits were issued; distinct by (mode, partitions, injection bucket, retry bucket, rebalances, protocol, issue gap)",
+		"one evaluation = one seeded scenario of 30-100 commits issued by one goroutine through CommitOffsets / CommitOffsetsSync / CommitRecords with unique offsets (increasing, or in a seeded non-monotonic order so that later commits rewind earlier ones), while the coordinator delays selected commits, answers some with retriable coordinator errors or partition errors, and a second member joins/leaves; non-trivial = at least one commit was delayed/failed by injection while later commits were issued; distinct by (mode, partitions, injection bucket, retry bucket, rebalances, protocol, issue gap)",
 		"autocommit is disabled: autocommits are not issued by the application and would interleave their own values",
 		"CommitUncommittedOffsets is not used because its values are chosen by the client, not the harness (it funnels into the same commit path as CommitOffsetsSync)",
 	)
